@@ -106,6 +106,59 @@ def replay_deref_component(ctx, case):
         ctx.disagreement(case, f"deref component capture probe: expected {'found' if case['want'] else 'not found'}, got {str(res[1:2])[:120]}")
 
 
+def bare_register_probes(ctx, ws):
+    """Register names written without the `%` sigil (what `objdump -M intel` prints, and what the optional `%?` of the generated
+    expressions is there for): for every family and every (width of the first occurrence, width of the later use) pair a rule
+    `inc: [&fam-x.w1], dec: [&fam-x.w2]` is reported exactly at the places where the listing holds `inc R<w1>; dec R<w2>` of ONE
+    architectural register. By construction, no model, identical at every seed."""
+    from jv import listing as L
+    fams = {"&genreg": {"a": {"64": "rax", "32": "eax", "16": "ax", "8h": "ah", "8l": "al"}, "b": {"64": "rbx", "32": "ebx", "16": "bx", "8h": "bh", "8l": "bl"},
+                        "c": {"64": "rcx", "32": "ecx", "16": "cx", "8h": "ch", "8l": "cl"}},
+            "&indreg": {"s": {"64": "rsi", "32": "esi", "16": "si", "8l": "sil"}, "d": {"64": "rdi", "32": "edi", "16": "di", "8l": "dil"}},
+            "&stackreg": {"sp": {"64": "rsp", "32": "esp", "16": "sp", "8l": "spl"}},
+            "&basereg": {"bp": {"64": "rbp", "32": "ebp", "16": "bp", "8l": "bpl"}}}
+    for prefix, letters in fams.items():
+        insts, addr, where = [], 0x403000, {}
+        widths = sorted({w for ws_ in letters.values() for w in ws_})
+        for l, ws_ in letters.items():
+            others = [x for x in letters if x != l] or [l]
+            for w1 in widths:
+                for w2 in widths:
+                    if w1 in ws_ and w2 in ws_:
+                        where.setdefault((w1, w2), []).append(format(addr, "x"))
+                        insts += [L.SInst(addr, "inc", [ws_[w1]], None, None, 3, verbatim=True), L.SInst(addr + 3, "dec", [ws_[w2]], None, None, 3, verbatim=True),
+                                  L.SInst(addr + 6, "nop", [], None, None, 1)]
+                        addr += 7
+                        o = letters[others[0]]
+                        if others[0] != l and w2 in o:
+                            # the same widths on two DIFFERENT registers of the family: never a match
+                            insts += [L.SInst(addr, "inc", [ws_[w1]], None, None, 3, verbatim=True), L.SInst(addr + 3, "dec", [o[w2]], None, None, 3, verbatim=True),
+                                      L.SInst(addr + 6, "nop", [], None, None, 1)]
+                            addr += 7
+        text = L.render(insts, ctx.rng, labels=False)
+        lp = ws.write("bare.s", text)
+        name = prefix + "-x"
+        for w1 in widths:
+            for w2 in widths:
+                rule = real.dump_rule({"config": {"mnemonics-full-match": True}, "pattern": [{"inc": [name + "." + w1]}, {"dec": [name + "." + w2]}]})
+                res = real.match(ws.write("bare.yaml", rule), lp, ret="list", search="all", only_addr=True)
+                ctx.ran()
+                ctx.event("bare_register_name_probes")
+                want = where.get((w1, w2), [])
+                ctx.case(("bare-register", rule), bool(want), stratum="register names without %", outcome="found" if res[0] == "ok" and res[1] else "not found")
+                if res[0] != "ok" or list(res[1]) != want:
+                    ctx.disagreement({"bare_register": True, "rule": rule, "listing": text, "want": want},
+                                     f"register names without %: {name}.{w1} then {name}.{w2} reported at {str(res[1:2])[:160]}, the listing holds such pairs of one register at {want[:8]}")
+
+
+def replay_bare(ctx, case):
+    ws = real.Workspace()
+    res = real.match(ws.write("bare.yaml", case["rule"]), ws.write("bare.s", case["listing"]), ret="list", search="all", only_addr=True)
+    ctx.ran()
+    if res[0] != "ok" or list(res[1]) != case["want"]:
+        ctx.disagreement(case, f"register names without %: reported at {str(res[1:2])[:160]}, expected {case['want'][:8]}")
+
+
 def feat(rng):
     r = rng.random()
     if r < 0.15:   # other constructs (items with and without operands carrying times, groups, $not) between definitions and uses:
@@ -399,10 +452,14 @@ def run_shard(ctx):
         any_order_capture_probes(ctx, d)
     if ctx.shard == 6 % ctx.nshards:
         deref_component_probes(ctx, d.ws)
+    if ctx.shard == 7 % ctx.nshards:
+        bare_register_probes(ctx, d.ws)
     d.loop(3500, 300000)
 
 
 def replay(ctx, case):
     if case.get("deref_component"):
         return replay_deref_component(ctx, case)
+    if case.get("bare_register"):
+        return replay_bare(ctx, case)
     drive.replay_dsl(ctx, case, QUIRKS, classify, allow_any_order_defs=True)
